@@ -229,7 +229,7 @@ func (in *instantiator) collect(f *sx, guards []string) {
 // skolemize replaces positive universal quantifiers of the goal by fresh constants.
 func (in *instantiator) skolemize(f *sx) *sx {
 	switch f.head() {
-	case "and":
+	case "and", "or":
 		n := &sx{list: []*sx{f.list[0]}}
 		for _, c := range f.list[1:] {
 			n.list = append(n.list, in.skolemize(c))
